@@ -43,6 +43,7 @@ class FnSpec:
     lemmas: list[str] = field(default_factory=list)  # names of lemma groups to import as hypotheses
     timeout_ms: int | None = None
     shards: int = 1  # obligations of a large function are discharged by this many processes (each re-runs the symbolic execution)
+    prefer_cvc5: bool = False  # try cvc5 before z3 (functions whose obligations z3 only answers after a long search)
     dead_returns_ok: bool = False  # some returns are unreachable under the requires by design (no return cover canaries)
     ext_inf: bool = False  # `+` on reals is IEEE-like for +inf: inf + x == inf (x > -inf); -inf operands are excluded by obligation
     strict_inf: bool = True  # every +, -, * on reals must have operands other than +-inf (obligation `inf-arith`): no inf - inf / nan
